@@ -23,16 +23,32 @@ var CollateFuncs = map[string]func(string, string) int{
 		)
 	},
 	"nocase": func(a, b string) int {
-		lc := func(r rune) rune {
-			if r >= 'A' && r <= 'Z' {
-				return rune(strings.ToLower(string(r))[0])
+		// Same algorithm as SQLite's nocaseCollatingFunc: compare the common
+		// prefix byte by byte with ASCII letters folded (and, like
+		// sqlite3StrNICmp, stop at a NUL byte), then compare lengths.
+		lc := func(c byte) byte {
+			if c >= 'A' && c <= 'Z' {
+				return c + 'a' - 'A'
 			}
-			return r
+			return c
 		}
-		return strings.Compare(
-			strings.Map(lc, a),
-			strings.Map(lc, b),
-		)
+		n := len(a)
+		if len(b) < n {
+			n = len(b)
+		}
+		for i := 0; i < n; i++ {
+			ca, cb := lc(a[i]), lc(b[i])
+			if ca != cb {
+				if ca < cb {
+					return -1
+				}
+				return 1
+			}
+			if a[i] == 0 {
+				break
+			}
+		}
+		return cmpInt64(int64(len(a)), int64(len(b)))
 	},
 }
 
